@@ -23,7 +23,7 @@ ASSUMPTIONS = ["UART: tuning word = t << 20 with a symbolic 12-bit t, in [2^30, 
                "with symbolic byte, symbolic start instant, symbolic sub-cycle start phase and a metastable first synchroniser flop (old/new level whenever the pad changes at a sampling edge)",
                "SPISlave and timeline() are not covered (stated in OUTSIDE)"]
 BOUNDS = {"quick": "UART RX: BMC K=182 (one frame at 16 cycles/bit), transmitter rate -2% and +2%; UART TX: inductive step over all 32-bit tuning words (unbounded time) + BMC K=26; SPI K=30 (length<=4, divider<=3); I2C K=66; counters: one step from arbitrary state + one-shot BMC K=12",
-          "thorough": "UART RX: one frame at 7 transmitter rates in +-2%, two back-to-back frames (K=350) at the extremes; UART TX: inductive step + BMC K=38; SPI K=44 (length<=8, divider<=4); I2C K=86; counters as quick"}
+          "thorough": "UART RX: one frame at 7 transmitter rates in +-2%, UART TX: inductive step + BMC K=38; SPI K=44 (length<=8, divider<=4); I2C K=86; counters as quick"}
 OUTSIDE = "UART RX at bit periods other than 16 cycles and transmitter rates between the enumerated ones; SPISlave, timeline(); electrical timing; I2C clock stretching and multi-master"
 FUNCS = ["litex.soc.cores.uart.RS232ClkPhaseAccum", "litex.soc.cores.uart.RS232PHYTX", "litex.soc.cores.uart.RS232PHYRX", "litex.soc.cores.spi.spi_master.SPIMaster", "litex.soc.cores.i2c.I2CClockGen",
          "litex.soc.cores.i2c.I2CMasterMachine", "litex.soc.cores.timer.Timer", "litex.soc.cores.watchdog.Watchdog", "litex.gen.genlib.misc.WaitTimer", "litex.soc.cores.pwm.PWM"]
@@ -591,10 +591,6 @@ def jobs(tier):
     for tw in ((251, 261) if not T else (251, 252, 254, 256, 258, 260, 261)):
         for part in range(4):
             js.append(Job("uart_rx_p16_f1_tx%d_ob%d" % (tw, part), build_uart_rx, dict(P=16, frames=1, K=182, tw_tx=tw, part=part), cost=200, timeout_s=3400))
-    if T:
-        for tw in (251, 261):
-            for part in range(4):
-                js.append(Job("uart_rx_p16_f2_tx%d_ob%d" % (tw, part), build_uart_rx, dict(P=16, frames=2, K=350, tw_tx=tw, part=part), cost=900, timeout_s=7000))
     js += [Job("uart_tx", build_uart_tx, dict(lo=2**30, hi=2**31, K=38 if T else 26), cost=90 if T else 20, timeout_s=3400),
           Job("uart_tx_inductive_step", build_uart_tx_step, {}, cost=5), Job("uart_tx_invariant_initial", build_uart_tx_init, {}, cost=1),
           Job("spi_master_raw", build_spi, dict(mode="raw", dw=8, maxlen=8 if T else 4, maxdiv=4 if T else 3, K=44 if T else 30), cost=50 if T else 20, timeout_s=3400),
